@@ -97,8 +97,8 @@ def build_model(logic, S, I, s, W, K, drv_symbolic=True):
     modal = S.modal
     worlds = list(range(W if modal else 1))
     for w in worlds:
+        # only the frame: registering the world in R is the job of finish()
         m.frames[w]
-        m.R[w]
     consts = cs[:K]
     if s.predicates or s.quantifiers:
         m.constants.update(consts)
